@@ -20,12 +20,14 @@ from runner import HarnessError
 PID = "C43"
 LEVEL = "exploration"
 RULE = ("Hypothesis op sequences (<=30 steps) over a pool of 8 flows (4 HTTP, 2 TCP, 1 UDP, 1 DNS): add, mutate+update "
-        "(method/path/body/response/message/mark/unmark), remove, clear, clear_unmarked, set filter (8 filters), set order "
+        "(method/path/body/response/message/mark/unmark), the same mutations WITHOUT update (flow changes between hooks), remove, clear, clear_unmarked, set filter (8 filters), set order "
         "(4), reverse, marked-only toggle, focus moves, setvalue, duplicate, focus-follow; non-trivial = a sort key "
         "changed while a non-default order was active, or an add/update happened in marked-only mode, or a flow "
-        "re-entered the view after a key change; distinct by the op-kind sequence")
+        "re-entered the view after a key change, or a sort key changed without update(); distinct by the op-kind sequence")
 ASSUMPTIONS = [
-    "every flow mutation is followed by view.update([flow]) (what the proxy hooks / flow.mark command do)",
+    "mutations are either followed by view.update([flow]) (hooks, flow.mark) or silent (flow changes between hooks); for a "
+    "silently changed flow the view may use any state the flow had since its last update for filter and sort position, "
+    "but it must never list a flow that is not stored",
     "Flow attribute accessors (request.url, raw_content, DNS response size) are trusted; the model's url/size are "
     "cross-checked against them as a harness sanity check",
     "filters used are simple enough to be evaluated on the model record (~marked ~http ~tcp ~s ~m POST ~u x ~dns|~udp !~http)",
@@ -68,7 +70,8 @@ def _match(fi, m):
 
 
 # ------------------------------------------------------------------ strategy
-_idx = st.integers(0, NPOOL - 1)
+# skewed towards a few "hot" flows so that consecutive operations often hit the same flow
+_idx = st.sampled_from([0, 0, 0, 0, 1, 1, 1, 2, 2, 3, 4, 4, 5, 6, 7])
 _ops = st.one_of(
     st.tuples(st.just("add"), _idx),
     st.tuples(st.just("add"), _idx),
@@ -80,7 +83,11 @@ _ops = st.one_of(
     st.tuples(st.just("mut"), _idx, st.sampled_from(["mark", "unmark", "body"]), st.integers(0, 6)),
     st.tuples(st.just("mut"), _idx, st.sampled_from(["body", "method", "path", "msg"]), st.integers(0, 6)),
     st.tuples(st.just("mut"), _idx, st.sampled_from(["body", "method", "path", "msg"]), st.integers(0, 6)),
+    # a flow changes between two hooks: no update() reaches the view (e.g. the body arrives after requestheaders)
+    st.tuples(st.just("mutq"), _idx, st.sampled_from(["body", "body", "msg", "method", "path", "resp"]), st.integers(0, 6)),
+    st.tuples(st.just("mutq"), _idx, st.sampled_from(["body", "body", "msg", "method", "path", "resp"]), st.integers(0, 6)),
     st.tuples(st.just("remove"), st.lists(_idx, min_size=1, max_size=3)),
+    st.tuples(st.just("remove"), st.lists(_idx, min_size=1, max_size=2)),
     st.tuples(st.just("clear")),
     st.tuples(st.just("clear_unmarked")),
     st.tuples(st.just("filter"), st.integers(0, len(FILTERS) - 1), st.booleans()),
@@ -122,7 +129,7 @@ def _mkpool():
         f.live = False
         flows.append(f)
         models.append(dict(type="http", method=method, host=host, path=path, url="http://%s%s" % (host, path),
-                           size=len(body), time=t, marked="", resp=False, qsize=len(body), ssize=0))
+                           size=len(body), time=t, marked="", resp=False, qsize=len(body), ssize=0, past=[]))
 
     http_flow(0, "GET", "a.example", "/x", 100.0, b"12345")
     http_flow(1, "POST", "b.example", "/", 101.0, b"")
@@ -135,13 +142,24 @@ def _mkpool():
         f.timestamp_created = t
         f.live = False
         flows.append(f)
-        models.append(dict(type=kind, method=kind.upper(), url=None, size=0, time=t, marked="", resp=False))
+        models.append(dict(type=kind, method=kind.upper(), url=None, size=0, time=t, marked="", resp=False, past=[]))
     f = tflow.tdnsflow()
     f.timestamp_created = 100.5
     f.live = False
     flows.append(f)
-    models.append(dict(type="dns", method="QUERY", url="dns.google", size=0, time=100.5, marked="", resp=False))
+    models.append(dict(type="dns", method="QUERY", url="dns.google", size=0, time=100.5, marked="", resp=False, past=[]))
     return flows, models
+
+
+def _sortable(options, rev):
+    """can one key be picked per position so that the sequence is non-decreasing (non-increasing if rev)?"""
+    prev = None
+    for opts in options:
+        c = [k for k in opts if prev is None or (k <= prev if rev else k >= prev)]
+        if not c:
+            return False
+        prev = max(c) if rev else min(c)
+    return True
 
 
 def _fresh_key(order, f, m):
@@ -215,13 +233,23 @@ def _run_case(case, ctx, kinds, nt_flags):
         st_filter, st_marked_only, st_order, st_rev = 0, False, "time", False
         dirty = set()
 
-        def expected():
-            return [i for i in store if _match(st_filter, byid[i][1]) and (byid[i][1]["marked"] or not st_marked_only)]
+        def variants(m):
+            # the states the flow has had since the view was last told about it (update/add): the view may have
+            # evaluated filter and sort key on any of them
+            return [m] + [dict(m, **p) for p in m["past"]]
+
+        def expected(all_variants=True):
+            """stored flows that must be listed (all_variants) / may be listed (any variant matches)"""
+            q = all if all_variants else any
+            return [i for i in store if (byid[i][1]["marked"] or not st_marked_only)
+                    and q(_match(st_filter, x) for x in variants(byid[i][1]))]
+
+        prev_ids = set()
 
         for step, op in enumerate(case):
             kind = op[0]
             kinds.append(kind if kind != "mut" else "mut:" + op[2])
-            before = set(expected())
+            before = set(prev_ids)
             before_store = list(store)
             rec.ev.clear()
             updated = None  # flow id whose update() was called while stored
@@ -232,6 +260,7 @@ def _run_case(case, ctx, kinds, nt_flags):
                     for f, m in fl:
                         if f.id not in store:
                             store.append(f.id)
+                            m["past"] = []
                     if st_marked_only:
                         nt_flags.add("add-in-marked-only")
                 elif kind == "mut":
@@ -240,6 +269,7 @@ def _run_case(case, ctx, kinds, nt_flags):
                     oldkeys = {o: _fresh_key(o, f, m) for o in ORDERS}
                     keych = _mutate(f, m, what, val, tutils)
                     v.update([f])
+                    m["past"] = []
                     if f.id in store:
                         updated = f.id
                         for o in ORDERS:
@@ -253,13 +283,24 @@ def _run_case(case, ctx, kinds, nt_flags):
                             nt_flags.add("update-in-marked-only")
                         if keych and f.id not in before:
                             nt_flags.add("key-change-while-hidden")
+                elif kind == "mutq":
+                    f, m = pool[op[1]]
+                    snap = {k: m[k] for k in ("method", "url", "size", "resp")}
+                    if _mutate(f, m, op[2], op[3], tutils) and f.id in store:
+                        nt_flags.add("silent-key-change")
+                    if any(snap[k] != m[k] for k in snap):
+                        m["past"].append(snap)
                 elif kind == "remove":
                     fl = [pool[j][0] for j in op[1]]
+                    if any(byid[f.id][1]["past"] for f in fl if f.id in store):
+                        nt_flags.add("remove-after-silent-change")
                     v.remove(fl)
                     for f in fl:
                         if f.id in store:
                             store.remove(f.id)
                 elif kind == "clear":
+                    if any(byid[i][1]["past"] for i in store):
+                        nt_flags.add("remove-after-silent-change")
                     v.clear()
                     del store[:]
                 elif kind == "clear_unmarked":
@@ -301,6 +342,7 @@ def _run_case(case, ctx, kinds, nt_flags):
                     if f.id in store:
                         v.setvalue([f], op[2], "v%d" % step)
                         updated = f.id
+                        m["past"] = []   # setvalue triggers the update hook
                         if v.getvalue(f, op[2], "default") != "v%d" % step:
                             ctx.fail("settings:value-lost", "step %d" % step)
                 elif kind == "dup":
@@ -312,6 +354,7 @@ def _run_case(case, ctx, kinds, nt_flags):
                     dup = [x for x in v.resolve("@all") if x.id not in byid]
                     for d in dup:
                         m2 = dict(m)
+                        m2["past"] = []
                         byid[d.id] = (d, m2)
                         store.append(d.id)
                 elif kind == "follow":
@@ -326,6 +369,7 @@ def _run_case(case, ctx, kinds, nt_flags):
             listed = list(v)
             ids = [f.id for f in listed]
             exp = expected()
+            may = set(expected(False))
             where = "step %d %r (filter=%r marked_only=%s order=%s rev=%s)" % (step, op, FILTERS[st_filter], st_marked_only, st_order, st_rev)
             if len(set(ids)) != len(ids):
                 ctx.fail("view:duplicate-entry", where)
@@ -333,8 +377,8 @@ def _run_case(case, ctx, kinds, nt_flags):
             if v.store_count() != len(store) or any(v.get_by_id(i) is not byid[i][0] for i in store):
                 ctx.fail("store:membership", "%s store=%r model=%r" % (where, v.store_count(), len(store)))
                 return
-            if set(ids) != set(exp):
-                extra = [i for i in ids if i not in exp]
+            if not (set(exp) <= set(ids) <= may):
+                extra = [i for i in ids if i not in may]
                 missing = [i for i in exp if i not in ids]
                 if (st_marked_only and not missing and extra and
                         all(i in store and not byid[i][1]["marked"] and _match(st_filter, byid[i][1]) for i in extra)):
@@ -343,6 +387,7 @@ def _run_case(case, ctx, kinds, nt_flags):
                     # re-synchronise (two toggles == one refilter) and go on, so that the rest of the history is still checked
                     v.toggle_marked()
                     v.toggle_marked()
+                    prev_ids = {x.id for x in v}
                     continue
                 elif extra and not all(i in store for i in extra):
                     ctx.fail("membership:unstored-flow-shown", where)
@@ -350,8 +395,9 @@ def _run_case(case, ctx, kinds, nt_flags):
                     ctx.fail("membership:%s:%s" % ("extra" if extra else "missing", kind), "%s extra=%d missing=%d" % (where, len(extra), len(missing)))
                 return
             # order by fresh keys
-            keys = [_fresh_key(st_order, *byid[i]) for i in ids]
-            ok = all((a >= b) if st_rev else (a <= b) for a, b in zip(keys, keys[1:]))
+            # (a flow that changed without update() may still be placed by any key it had since its last update)
+            keys = [sorted({_fresh_key(st_order, byid[i][0], x) for x in variants(byid[i][1])}) for i in ids]
+            ok = _sortable(keys, st_rev)
             if not ok:
                 stale = any(v.settings[byid[i][0]].get(v._order_key_name()) != v.order_key.generate(byid[i][0])
                             and (i, st_order) in dirty for i in ids)
@@ -382,7 +428,8 @@ def _run_case(case, ctx, kinds, nt_flags):
                 return
             # signals
             evs = list(rec.ev)
-            after = set(exp)
+            after = set(ids)
+            prev_ids = after
             refreshed = ("refresh", None) in evs
             adds = [i for k, i in evs if k == "add"]
             rems = [i for k, i in evs if k == "remove"]
